@@ -174,7 +174,8 @@ PROPS.update({
                  "a refresh expected-and-observed plus one of {boundary hit exactly / +-1ns, backoff k>=1, server-side deadline, deadline call started before the last response, factory refusal, suppressed by refresh in progress}",
                  conc=("TestConcC07", "Invariant: concurrent qualifying completions on one channel create exactly one replacement while its refresh is in progress; no connection is removed twice.", 120, 6000, "TestSchedC07")),
     "C08": _pool("TestC08", "Profile 'fallback' (fallback_to_ready on). Oracle: keyed pick with home not READY on the most recent picker is placed on a READY channel whenever one exists (also saturated), the stand-in is reused while it stays READY and home stays not READY (follows a refresh of the stand-in), home READY again => home; bindings unchanged by fallback.",
-                 ">=1 reuse of a stand-in plus one of {saturated READY set, stand-in refreshed, stand-in failed, home recovered}"),
+                 ">=1 reuse of a stand-in plus one of {saturated READY set, stand-in refreshed, stand-in failed, home recovered}",
+                 conc=("TestConcC05", "Invariant: no panic (shared workload).", 150, 6000, "TestSchedC08")),
     "C09": _pool("TestC09", "Profile 'rr' (ROUND_ROBIN, 1-6 channels, BIND picks with deadlines/cancellation, blocked picks observed with synctest.Wait). Oracle: assignments follow creation order cyclically while the composition is unchanged (first after a change re-synchronises); a pick is handed its channel only when READY or after its context ended; blocked picks are released by the READY report / swap / context end within one 100 ms poll period of virtual time; other calls obey the load rule.",
                  ">=4 in-order BIND assignments or a blocked BIND released by READY or by context end",
                  conc=("TestConcC09", "Invariant: n*k round-robin BIND picks issued from several goroutines over n READY channels put exactly k on each channel.", 400, 14000)),
